@@ -51,6 +51,12 @@ def sup_case(draw, nmax=10, kinds=("sup",), nq=(0, 0), nu=(0, 0), modes=("pre", 
             for q in range(nt + n_u, m):
                 if draw(st.integers(0, 2)) == 0:
                     X[q] = list(X[draw(st.integers(0, nt - 1))])
+        if kind == "lattice" and draw(st.booleans()):
+            # integer-typed training matrix (counts / pixel values); unlabeled and query rows stay real-valued
+            case["train_int"] = True
+            for q in range(nt, m):
+                if draw(st.booleans()):
+                    X[q] = [v + draw(st.sampled_from([0.5, 0.9, 0.25])) for v in X[q]]
         case["X"] = X
         case["metric"] = name
         case["pkind"] = kind
@@ -115,7 +121,7 @@ def run(case, predict=True, check_diag=True, need_symmetric=True):
         name = case["metric"]
         X = [list(map(float, p)) for p in case["X"]]
         model = libcall(cls, distance=name)
-        Xtr = np.array(X[:nt], dtype=float).reshape(nt, -1)
+        Xtr = np.array(X[:nt], dtype=np.int64 if case.get("train_int") else float).reshape(nt, -1)
         Xun = np.array(X[nt:ntr], dtype=float).reshape(nu, len(X[0]))
         Xq = np.array(X[ntr:], dtype=float).reshape(nq, len(X[0]))
         r.W = models.eval_matrix(name, X[:ntr])
